@@ -1147,6 +1147,49 @@ fn directed(r: &mut Rng, reg: &mut Reg, pns: &mut PnGen, out: &mut Sink) -> Vec<
             });
         }
     }
+    // an `Update` that collapses the prefix: keys under a long prefix and one far key in ONE node (all compressed under a
+    // short prefix), many more keys inserted under the long prefix, the far key updated: `extract_ops_until` meets the
+    // `Update` with a small gauge and an over-full `body_size_after` and turns it into an `Insert`
+    for (n_base, n_ins) in [(24usize, 96usize), (40, 160), (12, 200)] {
+        let p = r.bytes32();
+        let mut far = [0xffu8; 32];
+        far[0] = p[0] | 0x80;
+        far[31] = 1;
+        let mut pp = p;
+        pp[0] &= 0x7f;
+        let step = 5usize;
+        let base: Vec<Key> = (0..n_base).map(|i| key_from(&pp[..28], &((i * step) as u16).to_be_bytes())).chain(std::iter::once(far)).collect();
+        let level = build_one(reg, out, &base, pns, 1);
+        let mut ch: Vec<(Key, Option<u32>)> = (0..n_base * step + n_ins)
+            .filter(|i| !(i % step == 0 && i / step < n_base))
+            .map(|i| (key_from(&pp[..28], &(i as u16).to_be_bytes()), Some(pns.next())))
+            .collect();
+        ch.push((far, Some(pns.next())));
+        v.push(Scenario {
+            level,
+            universe: vec![],
+            rounds: 1,
+            scen: 9,
+            desc: format!("directed update collapses the prefix ({n_base} kept, {} inserted)", ch.len() - 1),
+            fixed: vec![ch],
+        });
+    }
+    // a cascade at the very end: five small nodes, one delete in the first one — the final `while let NeedsMerge` loop
+    // has to merge four times
+    {
+        let p = r.bytes32();
+        let mut level = Vec::new();
+        let mut first = None;
+        for n in 0..5u16 {
+            let base: Vec<Key> = (0..6u16).map(|i| key_from(&p[..16], &(n * 100 + i).to_be_bytes())).collect();
+            if n == 0 {
+                first = Some(base[2]);
+            }
+            level.extend(build_one(reg, out, &base, pns, n as u32 + 1));
+        }
+        let ch = vec![(first.unwrap(), None)];
+        v.push(Scenario { level, universe: vec![], rounds: 1, scen: 9, desc: "directed final merge cascade over five nodes".into(), fixed: vec![ch] });
+    }
     // every separator of one node updated
     {
         let p = r.bytes32();
